@@ -23,4 +23,4 @@ INIT MCInit
 NEXT MCNext
 CHECK_DEADLOCK FALSE
 VIEW View
-INVARIANTS C09_QuiescentIsFixpoint C09_AllTerminal
+INVARIANTS C09_QuiescentIsFixpoint C09_AllTerminal Cover
